@@ -16,6 +16,9 @@ _lock = threading.Lock()
 GATES = {}
 STARTED = {}
 IDENT = {}
+THREADS = {}
+REGISTER = {}
+ACK = {}
 
 
 def trace(ev):
@@ -26,18 +29,27 @@ def trace(ev):
             f.write(json.dumps(ev) + "\n")
 
 
-def body(uid):
-    IDENT[uid] = threading.get_ident()
-    trace({"ev": "start", "uid": uid, "ident": threading.get_ident()})
+def body(uid, name=None):
+    ident = threading.get_ident()
+    IDENT[uid] = ident
+    # the name the thread goes by: the one `threading` lists for its ident (for a low-level thread that may be the
+    # "Dummy-<n>" entry an earlier thread with the same ident left behind), else "Dummy-<ident>"
+    if name is None:
+        name = {t.ident: t.name for t in threading.enumerate()}.get(ident, "Dummy-%d" % ident)
+    trace({"ev": "start", "uid": uid, "ident": ident, "name": name})
     STARTED[uid].set()
-    GATES[uid].wait(60)
+    deadline = time.time() + 60
+    while not GATES[uid].wait(0.005) and time.time() < deadline:
+        if uid in REGISTER and not ACK[uid].is_set():
+            # asked (by a later test) to register with `threading`: from now on it is known as "Dummy-<n>"
+            trace({"ev": "rename", "uid": uid, "name": threading.current_thread().name})
+            ACK[uid].set()
 
 
 def body_ct(uid):
     """a low-level thread that asks `threading` who it is (as logging does for every record):
     threading then keeps a _DummyThread entry for it, also after the thread has ended"""
-    threading.current_thread()
-    body(uid)
+    body(uid, threading.current_thread().name)
 
 
 class QueueWorker(threading.Thread):
@@ -63,14 +75,26 @@ def do(action):
         STARTED[uid] = threading.Event()
         if api in ("threading", "threading_falsy"):
             cls = QueueWorker if api == "threading_falsy" else threading.Thread
-            t = cls(target=body, args=(uid,), name=name)
+            t = cls(target=body, args=(uid, name), name=name)
             t.daemon = True
+            THREADS[uid] = t
             t.start()
         elif api == "_thread_ct":
             _thread.start_new_thread(body_ct, (uid,))
         else:
             _thread.start_new_thread(body, (uid,))
         STARTED[uid].wait(60)
+    elif kind == "rename":
+        # a running thread changes its name: a threading.Thread is given a new one, a low-level thread registers
+        # with `threading` (as it does when it logs something)
+        uid = action[1]
+        if uid in THREADS:
+            THREADS[uid].name = action[2]
+            trace({"ev": "rename", "uid": uid, "name": action[2]})
+        elif uid in GATES:
+            ACK[uid] = threading.Event()
+            REGISTER[uid] = True
+            ACK[uid].wait(30)
     elif kind == "skip":
         raise unittest.SkipTest("skips itself")
     elif kind == "finish":
